@@ -110,6 +110,7 @@ type Conn struct {
 	closed    bool
 	rst       bool
 	rdShut    bool // CloseRead was called
+	linger0   bool // SO_LINGER with a zero timeout
 	CloseStep int64
 	rdl, wdl  time.Time
 	rwait     *waiter
@@ -661,6 +662,12 @@ func (c *Conn) Close() error {
 	}
 	c.closed = true
 	c.CloseStep = w.Step
+	abort := c.linger0 && !c.rst && (c.out.inflight.len() > 0 || c.out.ready.len() > 0)
+	if abort {
+		// SO_LINGER with a zero timeout: close() discards what has not reached
+		// the peer's application yet and sends RST
+		c.resetLocked()
+	}
 	c.out.finQueued = true
 	c.in.ready.clear()
 	wakeAll(&c.rwait)
@@ -673,6 +680,9 @@ func (c *Conn) Close() error {
 		side = 1
 	}
 	w.Emit("sock-close", c.ID, 0, side, 0, "", nil)
+	if abort {
+		w.Emit("sock-abort", c.ID, 0, side, 0, "", nil)
+	}
 	return nil
 }
 
@@ -721,8 +731,19 @@ func (c *Conn) SetKeepAlivePeriod(time.Duration) error { return nil }
 //go:norace
 func (c *Conn) SetKeepAliveConfig(net.KeepAliveConfig) error { return nil }
 
+// SetLinger(0) makes a later Close abortive (the one TCP option with an
+// effect in the model).
+//
 //go:norace
-func (c *Conn) SetLinger(int) error { return nil }
+func (c *Conn) SetLinger(sec int) error {
+	w := c.w
+	raceDisable()
+	w.mu.Lock()
+	c.linger0 = sec == 0
+	w.mu.Unlock()
+	raceEnable()
+	return nil
+}
 
 //go:norace
 func (c *Conn) SetNoDelay(bool) error { return nil }
